@@ -25,7 +25,11 @@ pub struct Case {
   pub charset: Option<u8>,
   /// 0 local .json root, 1 remote .json root, 2 local .ts root,
   /// 3 remote .ts root, 4 json imported with `type: "json"` (local),
-  /// 5 json imported with attribute (remote)
+  /// 5 json imported with attribute (remote), 6 a file of a JSR package whose
+  /// version manifest embeds module information and whose content is not in
+  /// the cache (deferred content load), 7 the same file without embedded
+  /// information; 6 and 7 fall back to 3 unless the bytes are plain UTF-8
+  /// (with or without BOM) and no charset is given
   pub shape: u8,
 }
 
@@ -69,7 +73,7 @@ pub fn spec() -> PropSpec<Case> {
         proptest::collection::vec((any::<u16>(), prop_oneof![Just(0xffu8), Just(0xc3), Just(0xed), Just(0xa0), Just(0x80), Just(0xd8), Just(0x00), Just(0xfe)]), 0..3),
         proptest::bool::weighted(0.15),
         proptest::option::weighted(0.6, 0..(LABELS.len() as u8)),
-        0..6u8,
+        0..8u8,
       )
         .prop_map(|(text, encoding, bom, corrupt, truncate, charset, shape)| Case {
           text,
@@ -84,7 +88,7 @@ pub fn spec() -> PropSpec<Case> {
     },
     check,
     cases: |tier| tier.pick(200_000, 4_000_000),
-    rule: "payload text over ASCII, Latin-1, BMP, astral, U+FEFF, U+FFFD, C1 and line-separator characters, encoded as UTF-8 / UTF-16LE / UTF-16BE / windows-1252, with no / matching / mismatching BOM, 0-2 inserted invalid bytes and optional truncation of the last byte; served with no charset or one of 15 labels (case, whitespace, aliases, unsupported) as local or remote JSON root, TypeScript root (payload inside a comment and a string literal) or attributed JSON import; non-trivial = the bytes contain a non-ASCII byte or a BOM, or the effective charset is not UTF-8; distinct = distinct case JSON",
+    rule: "payload text over ASCII, Latin-1, BMP, astral, U+FEFF, U+FFFD, C1 and line-separator characters, encoded as UTF-8 / UTF-16LE / UTF-16BE / windows-1252, with no / matching / mismatching BOM, 0-2 inserted invalid bytes and optional truncation of the last byte; served with no charset or one of 15 labels (case, whitespace, aliases, unsupported) as local or remote JSON root, TypeScript root (payload inside a comment and a string literal) or attributed JSON import, or (plain UTF-8 with or without BOM) as a file of a JSR package with / without module information embedded in the version manifest and nothing cached; non-trivial = the bytes contain a non-ASCII byte or a BOM, or the effective charset is not UTF-8; distinct = distinct case JSON",
     assumptions: &[
       "reference decoder covers exactly the generated labels (WHATWG label matching: ASCII case-insensitive, surrounding whitespace ignored; utf-16 = utf-16le; iso-8859-1, latin1, us-ascii = windows-1252)",
       "a quoted charset parameter (charset=\"utf-8\") is not generated",
@@ -103,7 +107,7 @@ pub fn encode(case: &Case) -> Vec<u8> {
     .filter_map(|c| char::from_u32(*c))
     .collect();
   let payload = match case.shape {
-    2 | 3 => {
+    2 | 3 | 6 | 7 => {
       // a TypeScript program carrying the text in a comment and a string
       let safe: String = text
         .chars()
@@ -239,9 +243,129 @@ pub fn decode_ref(bytes: &[u8], label: &str) -> Option<String> {
   Some(text)
 }
 
+/// shapes 6 / 7: the payload as `mod.ts` of a registry package
+fn check_jsr(case: &Case, bytes: &[u8], embedded: bool) -> Outcome {
+  use crate::registry::{self, Exports, RegFile, RegPackage, RegVersion, Registry};
+  let mut o = Outcome::default();
+  let text = String::from_utf8(bytes.to_vec()).expect("plain UTF-8");
+  let mut files = BTreeMap::new();
+  files.insert(
+    "/mod.ts".to_string(),
+    RegFile {
+      lang: crate::world::Lang::Ts,
+      items: vec![],
+      text: Some(text),
+    },
+  );
+  let reg = Registry {
+    packages: vec![RegPackage {
+      name: "@s/a".into(),
+      versions: vec![RegVersion {
+        version: "1.0.0".into(),
+        yanked: false,
+        created_day: None,
+        exports: Exports::Single("./mod.ts".into()),
+        files,
+        module_graph: if embedded { 2 } else { 0 },
+        lockfile_checksum: false,
+      }],
+    }],
+  };
+  let mut served = registry::materialize(&reg, true).served;
+  let main = ModuleSpecifier::parse("file:///main.ts").unwrap();
+  served.insert(
+    main.clone(),
+    Served::Module {
+      bytes: b"import \"jsr:@s/a@1.0.0\";\n".to_vec().into(),
+      headers: None,
+      final_spec: main.clone(),
+    },
+  );
+  let mut loader = WorldLoader::new(served);
+  // nothing is cached: with embedded information the content is loaded later
+  loader.cache = Some(Default::default());
+  let opts = Opts::default();
+  let mut graph = ModuleGraph::new(opts.graph_kind());
+  build_into(
+    &mut graph,
+    vec![main],
+    vec![],
+    BuildEnv {
+      loader: &loader,
+      opts: &opts,
+      locker: None,
+      npm: None,
+      jsr_version_resolver: None,
+      prefer_cached: false,
+    },
+    &Schedule::default(),
+    false,
+  )
+  .expect("ungated build");
+  let spec = ModuleSpecifier::parse("https://jsr.io/@s/a/1.0.0/mod.ts").unwrap();
+  let expected = decode_ref(bytes, "utf-8").expect("utf-8 decodes");
+  let tag = if embedded { "jsr-embedded-info" } else { "jsr-parsed" };
+  match graph.modules().find(|m| m.specifier() == &spec) {
+    Some(Module::Js(js)) => {
+      let source = &js.source;
+      if source.text.as_ref() != expected.as_str() {
+        o.violate(
+          format!("C20/text-differs/js/{tag}"),
+          format!("bytes {bytes:02x?}\n stored   {:?}\n expected {:?}", source.text, expected),
+        );
+      }
+      if let Some(orig) = source.try_get_original_bytes() {
+        if orig.as_ref() != bytes {
+          o.violate(
+            format!("C20/original-bytes-differ/js/{tag}/{:?}", source.decoded_kind),
+            format!("loader supplied {bytes:02x?}\n returned        {:02x?}", orig.as_ref()),
+          );
+        }
+        o.label("original-bytes-available");
+      } else {
+        o.label("original-bytes-none");
+      }
+      let ser = serde_json::to_value(graph.get(&spec).unwrap()).unwrap();
+      let size = ser.get("size").and_then(|s| s.as_u64());
+      if size != Some(source.text.len() as u64) {
+        o.violate(
+          "C20/size-is-not-text-length",
+          format!("size {size:?}, text length {}", source.text.len()),
+        );
+      }
+    }
+    Some(other) => o.violate("C20/unexpected-module-kind", format!("{other:?}")),
+    None => match graph.module_errors().find(|e| e.specifier() == &spec) {
+      Some(e) if matches!(e.as_kind(), deno_graph::ModuleErrorKind::Parse { .. }) => o.label("parse-error"),
+      Some(e) => o.violate(format!("C20/decodable-input-rejected/{tag}"), format!("{e}")),
+      None => o.violate("C20/no-entry", format!("{spec}")),
+    },
+  }
+  let non_ascii = bytes.iter().any(|b| *b >= 0x80);
+  if non_ascii {
+    o.label("non-ascii-bytes");
+  }
+  o.label(format!("shape-{}", case.shape));
+  o.nontrivial = non_ascii;
+  o
+}
+
 pub fn check(case: &Case, _tier: Tier) -> Outcome {
   let mut o = Outcome::default();
+  let case = &{
+    let mut c = case.clone();
+    if c.shape >= 6 {
+      let plain = c.encoding == 0 && c.corrupt.is_empty() && !c.truncate && c.bom <= 2 && c.charset.is_none();
+      if !plain {
+        c.shape = 3;
+      }
+    }
+    c
+  };
   let bytes = encode(case);
+  if case.shape >= 6 {
+    return check_jsr(case, &bytes, case.shape == 6);
+  }
   let remote = matches!(case.shape, 1 | 3 | 5);
   let (url, mime) = match case.shape {
     0 => ("file:///m.json", "application/json"),
